@@ -14,7 +14,7 @@ EXPLANATION = (
     "Bounded symbolic execution of the real dask.local.get_async loop with a symbolic num_workers, enumerated "
     "chunksize in {-1,1,2,3,4}, solver-chosen completion order of pending batches and solver-enumerated graphs "
     "(all DAG shapes of N nodes over the node kinds Task/DataNode/Alias/legacy tuple/List argument/legacy list, all "
-    "requested-key subsets and nestings). Assertion: the returned structure equals an independent recursive "
+    "requested-key subsets incl. the empty one and nestings: flat, list-first, key-first heterogeneous; tasks returning None). Assertion: the returned structure equals an independent recursive "
     "evaluation of the graph (z3 equality over symbolic leaf values), no exception, and the scheduler never blocks "
     "with nothing pending. The decision tree is exhausted; each path is replayed natively and its witness is "
     "re-run on dask.get, dask.threaded.get and a ThreadPoolExecutor-backed get_async (e2e).")
@@ -30,14 +30,18 @@ BOUNDS = {
 }
 
 
+# request shapes: the small graphs get every nesting and the empty request; the largest quick graphs only scalar/flat and list-first
+REQ = {False: dict(), True: dict(allow_empty=False, shapes=(0, 2))}
+
+
 def functions():
     return SC.sched_functions()
 
 
-def mk(N, kinds, chunks=SC.CHUNKSIZES, nw_hi=None, tag=""):
+def mk(N, kinds, chunks=SC.CHUNKSIZES, nw_hi=None, tag="", small=False):
     def setup(e):
         spec = SC.gen_graph(e, N, kinds)
-        want, shape = SC.gen_request(e, N)
+        want, shape = SC.gen_request(e, N, **REQ[small])
         nw = e.int("num_workers", 1, nw_hi)
         cs = e.pick("chunksize", chunks)
         return spec, want, shape, nw, cs
@@ -59,7 +63,7 @@ def mk(N, kinds, chunks=SC.CHUNKSIZES, nw_hi=None, tag=""):
         for which in ("sync", "threaded", "executor"):
             ne = NativeEngine(model)
             spec = SC.gen_graph(ne, N, kinds)
-            want, shape = SC.gen_request(ne, N)
+            want, shape = SC.gen_request(ne, N, **REQ[small])
             nw = ne.int("num_workers", 1, nw_hi)
             cs = ne.pick("chunksize", chunks)
             log = []
@@ -77,11 +81,11 @@ def mk(N, kinds, chunks=SC.CHUNKSIZES, nw_hi=None, tag=""):
             if res != exp:
                 raise Violation(f"{which} scheduler: {res!r} != {exp!r} for graph {dsk!r} keys {keys!r}")
 
-    return Obligation(f"values[N={N},kinds={'+'.join(kinds)}{tag}]", setup, run, e2e=e2e, e2e_every=40)
+    return Obligation(f"values[N={N},kinds={'+'.join(kinds)}{tag}{',fewshapes' if small else ''}]", setup, run, e2e=e2e, e2e_every=40)
 
 
 def obligations(tier):
     A, B = ("task", "data", "alias"), ("legacy", "listarg", "legacylist")
     if tier == "quick":
-        return [mk(1, SC.ALL_KINDS), mk(2, SC.ALL_KINDS), mk(3, A), mk(3, B)]
-    return [mk(1, SC.ALL_KINDS), mk(2, SC.ALL_KINDS), mk(3, SC.ALL_KINDS), mk(4, A), mk(4, ("task", "legacylist", "listarg"))]
+        return [mk(1, SC.ALL_KINDS), mk(2, SC.ALL_KINDS), mk(3, A, small=True), mk(3, B, small=True), mk(3, SC.NONE_KINDS, small=True)]
+    return [mk(1, SC.ALL_KINDS), mk(2, SC.ALL_KINDS), mk(3, SC.ALL_KINDS), mk(3, SC.NONE_KINDS), mk(4, A), mk(4, ("task", "legacylist", "listarg"))]
